@@ -64,13 +64,76 @@ class Log:
     """event sink handed to the dispatcher's collaborators; each thread / dispatch writes to its own list"""
 
     def __init__(self):
-        self.local = threading.local()
+        self.local = dd.CtxLocal()
 
     def append(self, e):
         self.local.cur.append(e)
 
 
-def dispatch_one(d, cfg, log, idx):
+def nested(cfg, log, idx, sink):
+    """the callable m_ok runs: dispatches corpus entry idx on the SAME dispatcher from inside the method (re-entrant use) and
+    files that dispatch as a trace of its own; the events of the outer dispatch go on in the outer list afterwards"""
+    def restore(outer, perr, used):
+        log.local.cur = outer
+        dd.CUR.perr = perr
+        used.append(1)
+
+    def go(d, is_coro):
+        if getattr(log.local, 'depth', 0) >= 1:     # the inner request may address m_ok again: one level only
+            async def nop():
+                return None
+            return nop() if is_coro else None
+        outer, perr = log.local.cur, getattr(dd.CUR, 'perr', None)
+        log.local.depth = 1
+        used = []
+        if not is_coro:
+            try:
+                sink.append(dispatch_one(d, cfg, log, idx, inner=True))
+            finally:
+                restore(outer, perr, used)
+                log.local.depth = 0
+            return None
+
+        async def run():
+            try:
+                sink.append(await dispatch_one_async(d, cfg, log, idx))
+            finally:
+                restore(outer, perr, used)
+                log.local.depth = 0
+        return run()
+    return go
+
+
+def _prep(cfg, log, idx):
+    ev = []
+    log.local.cur = ev
+    text = CORPUS[idx - 1]
+    perr = DEFPERR
+    if isinstance(text, tuple):
+        text, perr = text
+    cfg = dict(cfg, perr=dict(perr))
+    dd.CUR.perr = cfg['perr']
+    return ev, text, cfg
+
+
+def _trace(cfg, text, ev):
+    return {'scn': {'cfg': {k: v for k, v in cfg.items() if not k.startswith('_')}, 'text': text}, 'ev': ev}
+
+
+async def dispatch_one_async(d, cfg, log, idx):
+    """the inner dispatch of a coroutine method: awaited on the running loop"""
+    ev, text, cfg = _prep(cfg, log, idx)
+    try:
+        ret = await d.dispatch(dd.render(text), context=object())
+    except BaseException as e:  # noqa
+        ev.append({'ev': 'Raise', 'type': type(e).__name__})
+    else:
+        out, leak = dd.a_out(ret)
+        ev.append({'ev': 'Return', 'out': out, 'leak': leak})
+    return _trace(cfg, text, ev)
+
+
+def dispatch_one(d, cfg, log, idx, inner=False):
     ev = []
     log.local.cur = ev
     text = CORPUS[idx - 1]
@@ -80,7 +143,7 @@ def dispatch_one(d, cfg, log, idx):
     cfg = dict(cfg, perr=dict(perr))
     dd.CUR.perr = cfg['perr']           # per thread: the error the method raises belongs to the request being dispatched
     try:
-        ret = dd.call(d, cfg['kind'] == 'async', dd.render(text))
+        ret = d.dispatch(dd.render(text), context=object()) if inner else dd.call(d, cfg['kind'] in ('async', 'asyncseq'), dd.render(text))
     except BaseException as e:  # noqa
         ev.append({'ev': 'Raise', 'type': type(e).__name__})
     else:
@@ -94,7 +157,16 @@ def run(scn, n):
     if 'hist' in scn:
         cfg = make_cfg('async' if zlib.crc32(json.dumps(scn, sort_keys=True).encode()) % 2 else 'sync')    # by content, not by position
         log = Log()
-        cfg['_perrcls'] = (zlib.crc32(json.dumps(scn, sort_keys=True).encode()) // 2) % 3
+        h = zlib.crc32(json.dumps(scn, sort_keys=True).encode())
+        cfg['_perrcls'] = (h // 2) % 3
+        if (h // 6) % 2:
+            # re-entrant use (variant by content): every execution of m_ok dispatches another corpus entry on the same
+            # dispatcher before it returns; inner and outer dispatches are validated each on its own
+            if cfg['kind'] == 'async':
+                # an inner batch really suspends the element that made it; Dispatcher.tla describes the elements of one
+                # dispatch in sequence (interleavings are AsyncBatch.tla's subject, C10), so the batch runs sequentially here
+                cfg['kind'] = 'asyncseq'
+            cfg['_inner'] = nested(cfg, log, scn['hist'][(h // 12) % len(scn['hist'])], traces)
         d = dd.build(cfg, log)
         for idx in scn['hist']:
             traces.append(dispatch_one(d, cfg, log, idx))
